@@ -216,7 +216,8 @@ func runC19(c *Ctx) {
 			for _, p := range group {
 				for _, cs := range m.callSites(painters[p]) {
 					n++
-					if cs.Parent() != allowedFn {
+					// (a private helper with one call site is part of its caller)
+					if cs.Parent() != allowedFn && m.owner(cs.Parent()) != allowedFn {
 						bad = p + " is called from " + m.fnName(cs.Parent()) + "; it must be reachable only through the guarded entry point " + allowed
 						where = append(where, m.pos(cs.Pos()))
 					}
